@@ -11,10 +11,24 @@ package planar
 //@ func collectionCentroidArea(c)
 //@   requires forall i :: 0 <= i && i < len(c) ==> c[i] != nil && noNil(c[i])
 
-//@ func CentroidArea(g)
+// the generic entry points return what the kind-specific function returns: nil and the 0/1-dimensional
+// kinds have area 0, a ring / polygon / multi-polygon the (centroid, area) pair of its typed function
+//@ func CentroidArea(g) (c, a)
+//@   floats abstract
+//@   allocates
+//@   function
 //@   requires noNil(g)
+//@   ensures g == nil ==> same(a, 0.0)
+//@   ensures istype(g, orb.Point) || istype(g, orb.MultiPoint) || istype(g, orb.LineString) || istype(g, orb.MultiLineString) ==> same(a, 0.0)
+//@   ensures istype(g, orb.Ring) ==> same(a, ringCentroidArea__1(as(g, orb.Ring))) && same(c, ringCentroidArea(as(g, orb.Ring)))
+//@   ensures istype(g, orb.Polygon) ==> same(a, polygonCentroidArea__1(as(g, orb.Polygon))) && same(c, polygonCentroidArea(as(g, orb.Polygon)))
+//@   ensures istype(g, orb.MultiPolygon) ==> same(a, multiPolygonCentroidArea__1(as(g, orb.MultiPolygon))) && same(c, multiPolygonCentroidArea(as(g, orb.MultiPolygon)))
 //@ func Area(g)
+//@   floats abstract
+//@   allocates
+//@   function
 //@   requires noNil(g)
+//@   ensures same(result, CentroidArea__1(g))
 
 // ---------------------------------------------------------------- point in ring / polygon (C09)
 
@@ -56,11 +70,31 @@ package planar
 //@ spec shoe(r orb.Ring, k int) float64 = ite(k < 1, 0.0, shoe(r, k-1) + ((r[k][0] - r[0][0]) * (r[k+1][1] - r[0][1]) - (r[k+1][0] - r[0][0]) * (r[k][1] - r[0][1])))
 //@ func ringCentroidArea(r) (c, a)
 //@   floats abstract
-//@   pure
+//@   function
 //@   ensures len(r) == 0 ==> same(a, 0.0)
 //@   ensures len(r) >= 1 ==> same(a, ite(shoe(r, len(r) - 2) == 0.0, 0.0, shoe(r, len(r) - 2) / 2.0))
 //@   ensures len(r) >= 1 && shoe(r, len(r) - 2) == 0.0 ==> same(c, r[0])
 //@   loop 1: invariant 1 <= i && (i <= len(r) - 1 || len(r) < 2) && same(area, shoe(r, i - 1)) && same(offsetX, r[0][0]) && same(offsetY, r[0][1])
+
+// a polygon's area is |outer| minus the sum of the |holes| (0 when that difference compares equal to
+// 0), a multi-polygon's the sum of its members' areas (0 when that sum compares equal to 0); the folds
+// run left to right
+//@ spec holeSum(p orb.Polygon, n int) float64 = ite(n <= 1, 0.0, holeSum(p, n-1) + math.Abs(ringCentroidArea__1(p[n-1])))
+//@ func polygonCentroidArea(p) (c, a)
+//@   floats abstract
+//@   allocates
+//@   function
+//@   ensures len(p) == 0 ==> same(a, 0.0)
+//@   ensures len(p) == 1 ==> same(a, ite(math.Abs(ringCentroidArea__1(p[0])) == 0.0, 0.0, math.Abs(ringCentroidArea__1(p[0]))))
+//@   ensures len(p) >= 2 ==> same(a, ite(math.Abs(ringCentroidArea__1(p[0])) - holeSum(p, len(p)) == 0.0, 0.0, math.Abs(ringCentroidArea__1(p[0])) - holeSum(p, len(p))))
+//@   loop 1: invariant 1 <= i && i <= len(p) && same(holeArea, holeSum(p, i)) && same(area, math.Abs(ringCentroidArea__1(p[0])))
+//@ spec polySum(mp orb.MultiPolygon, n int) float64 = ite(n <= 0, 0.0, polySum(mp, n-1) + polygonCentroidArea__1(mp[n-1]))
+//@ func multiPolygonCentroidArea(mp) (c, a)
+//@   floats abstract
+//@   allocates
+//@   function
+//@   ensures same(a, ite(polySum(mp, len(mp)) == 0.0, 0.0, polySum(mp, len(mp))))
+//@   loop 1: invariant -1 <= rangeindex && rangeindex < len(mp) && same(area, polySum(mp, rangeindex + 1))
 
 // the squared distance to a segment is a deterministic function of its three points (loop-free, no
 // state): callers may name it in their contracts
